@@ -83,6 +83,40 @@ func resultValue(rs []Value) Value {
 }
 
 func (x *Exec) callStatic(f *Frame, st *State, ins ssa.Instruction, fn *ssa.Function, clo *Closure, args []Value) (Value, bool) {
+	pcBefore := st.PC
+	v, ok := x.callStatic1(f, st, ins, fn, clo, args)
+	if ok && f.top && clo == nil {
+		// ghost call history of the function under verification
+		if f.callHist == nil {
+			f.callHist = map[string]*callRec{}
+		}
+		rec := f.callHist[FuncName(fn)]
+		if rec == nil {
+			rec = &callRec{}
+			f.callHist[FuncName(fn)] = rec
+		}
+		rec.n++
+		rec.pc = pcBefore
+		rec.results = nil
+		rec.types = nil
+		res := fn.Signature.Results()
+		switch {
+		case res.Len() == 1:
+			rec.results = []Value{v}
+			rec.types = []types.Type{res.At(0).Type()}
+		case res.Len() > 1:
+			if sv, isS := v.(*Struct); isS {
+				for i := 0; i < res.Len() && i < len(sv.Fields); i++ {
+					rec.results = append(rec.results, sv.Fields[i])
+					rec.types = append(rec.types, res.At(i).Type())
+				}
+			}
+		}
+	}
+	return v, ok
+}
+
+func (x *Exec) callStatic1(f *Frame, st *State, ins ssa.Instruction, fn *ssa.Function, clo *Closure, args []Value) (Value, bool) {
 	if f.top && f.spec != nil {
 		// call-site assertions of the function under verification ("before callee: expr")
 		for _, c := range f.spec.Of("before") {
